@@ -155,7 +155,7 @@ CLAIMS = {
          "Static decision that delta >= rho is provable at every break/continue/return and recording point, that rho has its four writers with non-increasing reducer cases, that growth "
          "of delta is wrapped in min(., 1e10), that the controller's and the main loop's rhoend are rescaled identically, and that the diagnostic table gets exactly one append per "
          "column per recorded iteration with documented columns, the recorded best point/objective are those of the final selection (better of saved point and incumbent) and at most one row is recorded per iteration; rhobeg/rhoend are not re-assigned between validation and the first run; and, by interval reasoning over the cases of reduce_rho and the inclusive ranges of the parameter table, that "
-         "rhoend <= rho, rho > 0 and rho never increases within a run (restart factor of rhoend in (0, 1]). Monotone best objective and 2 <= npt <= max depend on values and are NOT decided.",
+         "rhoend <= rho, rho > 0, rho never increases within a run (restart factor of rhoend in (0, 1]) and rho strictly decreases whenever reduce_rho runs (every case, with parameter factors rejected at 1 by solve's validation: without it solve does not return). Monotone best objective and 2 <= npt <= max depend on values and are NOT decided.",
          "Trusted: rhobeg > rhoend > 0 on entry (validated by solve, C07-3); floating-point sqrt/multiplication monotone (the interval reasoning is over the reals).",
          "DESIGN.md 4/C18"),
  "C19": ("guarded taint over the call graph (global-RNG uses vs documented random options, dominance-based guards; documented random options proved off by default from the parameter table), nondeterminism/hidden-state inventory, flow-sensitive ownership "
